@@ -2457,7 +2457,7 @@ func TestCheck(t *testing.T) {
 		return
 	}
 	vlib.Main(t, &vlib.Check{
-		ID: "C14", Level: "model_checking", QuickBudgetS: 45, ThoroughBudgetS: 780, WorkerEnv: []string{"GOMAXPROCS=1"},
+		ID: "C14", Level: "model_checking", QuickBudgetS: 60, ThoroughBudgetS: 780, WorkerEnv: []string{"GOMAXPROCS=1"},
 		Rule: "every op sequence within the stated length bounds, each executed from scratch on a real tsi1.Index on a real tsdb.SeriesFile in a fresh directory, over a universe of 6 series (S0 m0,a=x; S1 m0,a=y; S2 m0,a=x,b=x; S3 m0,b=y; S4 m1,a=x; S5 m1,a=y,b=x: 2 measurements x 2 tag keys x 2 values; S2 is the only holder of m0.b=x). " +
 			"Ops: create{S0},{S2},{S4},{S0..S3},{S0..S5} (Index.CreateSeriesListIfNotExists); dropS S0|S2|S4 = the engine's series delete in a single-shard database (Index.DropSeries(id,key,false), DropMeasurementIfSeriesNotExist, SeriesFile.DeleteSeriesID); dropM m0 = the engine's measurement delete (the same for every series of m0); dropMd m0|m1 = Index.DropMeasurement called directly, then the series ids deleted from the series file; reopen = Index.Close, SeriesFile.Close, SeriesFile.Open, Index.Open; compact = forced log compaction at the step boundary (log threshold 1 on every partition, Index.Compact()+Wait() until no partition needs compaction: log -> L1, L1+L1 -> L2, ..., threshold restored). " +
 			"Configurations: explicit (default 1 MiB log threshold, 1 partition: files change only at compact ops), auto (threshold 1, 1 partition: every op's log file is rolled and compacted at once, awaited after every Index call), mid (threshold 40 bytes, 2 partitions: rolls after ~3 entries, awaited). " +
@@ -2476,6 +2476,7 @@ func TestCheck(t *testing.T) {
 			"crash family: ordered-metadata crash model (creates/renames/unlinks persist in program order; data of sync-class files may be lost back to the last fsync = U images; a write in flight may persist any byte prefix = T images); event order = syscall completion order (the series file writes its partitions from concurrent goroutines: a replay searches its own recording for the image by content)",
 			"crash family: the series-file segments are not a sync class here (their durability is C13's business): their data is never dropped, only cut by P/T images",
 			"crash family: the recovery checker waits for the compactions the restart itself starts before it reads or probes (quiescent index)",
+			"the crash family runs first and may use at most half of the wall budget (30 s quick / 390 s thorough); beyond that it is capped (exhaustive:false), never an alarm",
 		},
 		Run: func(c *vlib.Ctx) {
 			runCrash(c) // crash family first: of fixed size and limited to half of the budget
